@@ -243,6 +243,16 @@ impl Property for C03 {
             lines.push(Line::model(format!("tnew {}", i + 1), "ok"));
             lines.push(Line::model(format!("tns {} {nshex} 1 {}", i + 1, hex(&ns.to_bytes())), "inserted"));
         }
+        // a fourth twin behind the store actor (`SyncHandle::insert_remote`, the gossip path): it gets
+        // everything twin 1 gets
+        iroh_docs::verif::set_clock_micros(Some(NOW));
+        let actor = {
+            let mut st = iroh_docs::store::Store::memory();
+            st.new_replica(ns.clone())?;
+            st.close_replica(nsid);
+            iroh_docs::actor::SyncHandle::spawn(st, None, "c03".into())
+        };
+        rt.block_on(actor.open(nsid, iroh_docs::actor::OpenOpts::default().sync()))?;
         let mut crafted_all: Vec<(SignedEntry, bool, bool)> = vec![];
         let mut fresh = 0u32;
         for op in ops {
@@ -256,6 +266,7 @@ impl Property for C03 {
                         s.store.close_replica(nsid);
                         lines.push(Line::model(format!("tremote {} {nshex} {NOW} {}", i + 1, honest_fp_tok(&e)), insert_result(res)));
                     }
+                    let _ = rt.block_on(actor.insert_remote(nsid, e.clone(), PEER, ContentStatus::Missing));
                 }
                 Op::Attack { a, key, c, ts, tamper, pos, n_valid, have_local, two_parts } => {
                     let cr = self.craft(*a, key, *c, *ts, *tamper);
@@ -278,6 +289,18 @@ impl Property for C03 {
                             format!("simplies {} {nshex} {NOW} {xtok}", (direct_accepted || res_line.starts_with("inserted")) as u8),
                             "ok",
                         ));
+                    }
+                    // (a') the same entry through the store actor: accepted there (acknowledged, or counted
+                    // as a new remote entry) only if valid, and exactly when the direct path accepted it
+                    {
+                        let m = actor.metrics().clone();
+                        let before = (m.new_entries_remote.get(), m.new_entries_remote_size.get());
+                        let res = rt.block_on(actor.insert_remote(nsid, x.clone(), PEER_B, ContentStatus::Complete));
+                        let after = (m.new_entries_remote.get(), m.new_entries_remote_size.get());
+                        let counted = after != before;
+                        lines.push(Line::oracle(format!("simplies {} {nshex} {NOW} {xtok}", (res.is_ok() || counted) as u8), "ok"));
+                        let agree = res.is_ok() == direct_accepted && counted == direct_accepted;
+                        lines.push(Line::oracle("sconst actor-path-agrees", if agree { "actor-path-agrees".to_string() } else { format!("direct={direct_accepted} actor-acknowledged={} actor-counted={counted}", res.is_ok()) }));
                     }
                     // (b) inside a message on replica 2, (c) the same message without it on replica 3
                     let mut valid: Vec<SignedEntry> = vec![];
@@ -352,6 +375,7 @@ impl Property for C03 {
                         drop(r);
                         stores[0].store.close_replica(nsid);
                         lines.push(Line::model(format!("tremote 1 {nshex} {NOW} {}", honest_fp_tok(e)), insert_result(res)));
+                        let _ = rt.block_on(actor.insert_remote(nsid, e.clone(), PEER, ContentStatus::Missing));
                     }
                     // keep the three model stores and real stores aligned: dumps
                     for (i, s) in stores.iter_mut().enumerate() {
@@ -367,6 +391,11 @@ impl Property for C03 {
                 }
             }
         }
+        // the store behind the actor ends up equal to twin 1
+        let mut st = rt.block_on(actor.shutdown())?;
+        let d1 = crate::c08::dump_fp(&mut stores[0].store, nsid)?;
+        let d4 = crate::c08::dump_fp(&mut st, nsid)?;
+        lines.push(Line::oracle("sconst actor-store-equals-direct-store", if d1 == d4 { "actor-store-equals-direct-store" } else { "actor-store-differs" }));
         Ok(lines)
     }
     fn features(&self, ops: &[Op], lines: &[Line]) -> Vec<String> {
